@@ -276,6 +276,10 @@ func (maybeSelf someDef[T]) ToFloat32() (float32, error) {
 		return (ref).(float32), nil
 	case float64:
 		val, err := maybeSelf.ToFloat64()
+		// a finite value beyond the float32 range would silently become +-Inf
+		if !math.IsInf(val, 0) && (val > math.MaxFloat32 || val < -math.MaxFloat32) {
+			return 0, ErrConversionSizeOverflow
+		}
 		return float32(val), err
 	}
 }
@@ -620,13 +624,17 @@ func (maybeSelf someDef[T]) ToInt32() (int32, error) {
 		return 0, ErrConversionSizeOverflow
 	case float32:
 		val, err := maybeSelf.ToFloat32()
-		if val >= math.MinInt32 && val <= math.MaxInt32 {
-			return int32(math.Round(float64(val))), err
+		// compared as float64: float32(math.MaxInt32) rounds up to 2^31, which does not fit
+		if v := float64(val); v >= math.MinInt32 && v <= math.MaxInt32 {
+			return int32(math.Round(v)), err
 		}
 		return 0, ErrConversionSizeOverflow
 	case float64:
 		val, err := maybeSelf.ToFloat64()
-		return int32(math.Round(val)), err
+		if val >= math.MinInt32 && val <= math.MaxInt32 {
+			return int32(math.Round(val)), err
+		}
+		return 0, ErrConversionSizeOverflow
 	}
 }
 
@@ -691,13 +699,13 @@ func (maybeSelf someDef[T]) ToInt64() (int64, error) {
 		return (ref).(int64), nil
 	case float32:
 		val, err := maybeSelf.ToFloat32()
-		if val >= math.MinInt64 && val <= math.MaxInt64 {
+		if val >= math.MinInt64 && val < math.MaxInt64 { // the float value of MaxInt64 is 2^63, which does not fit
 			return int64(math.Round(float64(val))), err
 		}
 		return 0, ErrConversionSizeOverflow
 	case float64:
 		val, err := maybeSelf.ToFloat64()
-		if val >= math.MinInt64 && val <= math.MaxInt64 {
+		if val >= math.MinInt64 && val < math.MaxInt64 { // the float value of MaxInt64 is 2^63, which does not fit
 			return int64(math.Round(val)), err
 		}
 		return 0, ErrConversionSizeOverflow
@@ -715,8 +723,8 @@ func (maybeSelf someDef[T]) ToByte() (byte, error) {
 	default:
 		return uint8(0), ErrConversionUnsupported
 	case string:
-		parseInt, err := strconv.ParseInt((ref).(string), 10, 8)
-		return uint8(parseInt), err
+		parseUint, err := strconv.ParseUint((ref).(string), 10, 8)
+		return uint8(parseUint), err
 	case bool:
 		val, err := maybeSelf.ToBool()
 		if val {
@@ -763,7 +771,10 @@ func (maybeSelf someDef[T]) ToByte() (byte, error) {
 		return 0, ErrConversionSizeOverflow
 	case int8:
 		val, err := maybeSelf.ToInt8()
-		return uint8(val), err
+		if val >= 0 {
+			return uint8(val), err
+		}
+		return 0, ErrConversionSizeOverflow
 	case int16:
 		val, err := maybeSelf.ToInt16()
 		if val >= 0 && val <= math.MaxUint8 {
@@ -808,8 +819,8 @@ func (maybeSelf someDef[T]) ToUint() (uint, error) {
 	default:
 		return 0, ErrConversionUnsupported
 	case string:
-		parseInt, err := strconv.ParseInt((ref).(string), 10, 32)
-		return uint(parseInt), err
+		parseUint, err := strconv.ParseUint((ref).(string), 10, 32)
+		return uint(parseUint), err
 	case bool:
 		val, err := maybeSelf.ToBool()
 		if val {
@@ -844,16 +855,28 @@ func (maybeSelf someDef[T]) ToUint() (uint, error) {
 		return uint(val), err
 	case int:
 		val, err := maybeSelf.ToInt()
-		return uint(val), err
+		if val >= 0 {
+			return uint(val), err
+		}
+		return 0, ErrConversionSizeOverflow
 	case int8:
 		val, err := maybeSelf.ToInt8()
-		return uint(val), err
+		if val >= 0 {
+			return uint(val), err
+		}
+		return 0, ErrConversionSizeOverflow
 	case int16:
 		val, err := maybeSelf.ToInt16()
-		return uint(val), err
+		if val >= 0 {
+			return uint(val), err
+		}
+		return 0, ErrConversionSizeOverflow
 	case int32:
 		val, err := maybeSelf.ToInt32()
-		return uint(val), err
+		if val >= 0 {
+			return uint(val), err
+		}
+		return 0, ErrConversionSizeOverflow
 	case int64:
 		val, err := maybeSelf.ToInt64()
 		if val >= 0 && val <= math.MaxUint32 {
@@ -891,8 +914,8 @@ func (maybeSelf someDef[T]) ToUint16() (uint16, error) {
 	default:
 		return uint16(0), ErrConversionUnsupported
 	case string:
-		parseInt, err := strconv.ParseInt((ref).(string), 10, 16)
-		return uint16(parseInt), err
+		parseUint, err := strconv.ParseUint((ref).(string), 10, 16)
+		return uint16(parseUint), err
 	case bool:
 		val, err := maybeSelf.ToBool()
 		if val {
@@ -936,10 +959,16 @@ func (maybeSelf someDef[T]) ToUint16() (uint16, error) {
 		return 0, ErrConversionSizeOverflow
 	case int8:
 		val, err := maybeSelf.ToInt8()
-		return uint16(val), err
+		if val >= 0 {
+			return uint16(val), err
+		}
+		return 0, ErrConversionSizeOverflow
 	case int16:
 		val, err := maybeSelf.ToInt32()
-		return uint16(val), err
+		if val >= 0 {
+			return uint16(val), err
+		}
+		return 0, ErrConversionSizeOverflow
 	case int32:
 		val, err := maybeSelf.ToInt32()
 		if val >= 0 && val <= math.MaxUint16 {
@@ -978,8 +1007,8 @@ func (maybeSelf someDef[T]) ToUint32() (uint32, error) {
 	default:
 		return uint32(0), ErrConversionUnsupported
 	case string:
-		parseInt, err := strconv.ParseInt((ref).(string), 10, 32)
-		return uint32(parseInt), err
+		parseUint, err := strconv.ParseUint((ref).(string), 10, 32)
+		return uint32(parseUint), err
 	case bool:
 		val, err := maybeSelf.ToBool()
 		if val {
@@ -1020,13 +1049,22 @@ func (maybeSelf someDef[T]) ToUint32() (uint32, error) {
 		return 0, ErrConversionSizeOverflow
 	case int8:
 		val, err := maybeSelf.ToInt8()
-		return uint32(val), err
+		if val >= 0 {
+			return uint32(val), err
+		}
+		return 0, ErrConversionSizeOverflow
 	case int16:
 		val, err := maybeSelf.ToInt16()
-		return uint32(val), err
+		if val >= 0 {
+			return uint32(val), err
+		}
+		return 0, ErrConversionSizeOverflow
 	case int32:
 		val, err := maybeSelf.ToInt32()
-		return uint32(val), err
+		if val >= 0 {
+			return uint32(val), err
+		}
+		return 0, ErrConversionSizeOverflow
 	case int64:
 		val, err := maybeSelf.ToInt64()
 		if val >= 0 && val <= math.MaxUint32 {
@@ -1035,13 +1073,17 @@ func (maybeSelf someDef[T]) ToUint32() (uint32, error) {
 		return 0, ErrConversionSizeOverflow
 	case float32:
 		val, err := maybeSelf.ToFloat32()
-		if val >= 0 && val <= math.MaxUint32 {
-			return uint32(math.Round(float64(val))), err
+		// compared as float64: float32(math.MaxUint32) rounds up to 2^32, which does not fit
+		if v := float64(val); v >= 0 && v <= math.MaxUint32 {
+			return uint32(math.Round(v)), err
 		}
 		return 0, ErrConversionSizeOverflow
 	case float64:
 		val, err := maybeSelf.ToFloat64()
-		return uint32(math.Round(val)), err
+		if val >= 0 && val <= math.MaxUint32 {
+			return uint32(math.Round(val)), err
+		}
+		return 0, ErrConversionSizeOverflow
 	}
 }
 
@@ -1056,8 +1098,8 @@ func (maybeSelf someDef[T]) ToUint64() (uint64, error) {
 	default:
 		return uint64(0), ErrConversionUnsupported
 	case string:
-		parseInt, err := strconv.ParseInt((ref).(string), 10, 64)
-		return uint64(parseInt), err
+		parseUint, err := strconv.ParseUint((ref).(string), 10, 64)
+		return uint64(parseUint), err
 	case bool:
 		val, err := maybeSelf.ToBool()
 		if val {
@@ -1086,28 +1128,43 @@ func (maybeSelf someDef[T]) ToUint64() (uint64, error) {
 		return uint64(val), err
 	case int:
 		val, err := maybeSelf.ToInt()
-		return uint64(val), err
+		if val >= 0 {
+			return uint64(val), err
+		}
+		return 0, ErrConversionSizeOverflow
 	case int8:
 		val, err := maybeSelf.ToInt8()
-		return uint64(val), err
+		if val >= 0 {
+			return uint64(val), err
+		}
+		return 0, ErrConversionSizeOverflow
 	case int16:
 		val, err := maybeSelf.ToInt16()
-		return uint64(val), err
+		if val >= 0 {
+			return uint64(val), err
+		}
+		return 0, ErrConversionSizeOverflow
 	case int32:
 		val, err := maybeSelf.ToInt32()
-		return uint64(val), err
+		if val >= 0 {
+			return uint64(val), err
+		}
+		return 0, ErrConversionSizeOverflow
 	case int64:
 		val, err := maybeSelf.ToInt64()
-		return uint64(val), err
+		if val >= 0 {
+			return uint64(val), err
+		}
+		return 0, ErrConversionSizeOverflow
 	case float32:
 		val, err := maybeSelf.ToFloat32()
-		if val >= 0 && val <= math.MaxUint64 {
+		if val >= 0 && val < math.MaxUint64 { // the float value of MaxUint64 is 2^64, which does not fit
 			return uint64(math.Round(float64(val))), err
 		}
 		return 0, ErrConversionSizeOverflow
 	case float64:
 		val, err := maybeSelf.ToFloat64()
-		if val >= 0 && val <= math.MaxUint64 {
+		if val >= 0 && val < math.MaxUint64 { // the float value of MaxUint64 is 2^64, which does not fit
 			return uint64(math.Round(val)), err
 		}
 		return 0, ErrConversionSizeOverflow
@@ -1127,9 +1184,9 @@ func (maybeSelf someDef[T]) ToUintptr() (uintptr, error) {
 	default:
 		return uintptr(0), ErrConversionUnsupported
 	case string:
-		parseInt, err := strconv.ParseInt((ref).(string), 10, 64)
-		if uint64(parseInt) <= maxUintptr {
-			return uintptr(parseInt), err
+		parseUint, err := strconv.ParseUint((ref).(string), 10, 64)
+		if parseUint <= maxUintptr {
+			return uintptr(parseUint), err
 		}
 		return uintptr(0), ErrConversionSizeOverflow
 	case bool:
@@ -1160,28 +1217,47 @@ func (maybeSelf someDef[T]) ToUintptr() (uintptr, error) {
 		return uintptr(val), err
 	case int:
 		val, err := maybeSelf.ToInt()
-		return uintptr(val), err
+		if val >= 0 {
+			return uintptr(val), err
+		}
+		return uintptr(0), ErrConversionSizeOverflow
 	case int8:
 		val, err := maybeSelf.ToInt8()
-		return uintptr(val), err
+		if val >= 0 {
+			return uintptr(val), err
+		}
+		return uintptr(0), ErrConversionSizeOverflow
 	case int16:
 		val, err := maybeSelf.ToInt16()
-		return uintptr(val), err
+		if val >= 0 {
+			return uintptr(val), err
+		}
+		return uintptr(0), ErrConversionSizeOverflow
 	case int32:
 		val, err := maybeSelf.ToInt32()
-		return uintptr(val), err
+		if val >= 0 {
+			return uintptr(val), err
+		}
+		return uintptr(0), ErrConversionSizeOverflow
 	case int64:
 		val, err := maybeSelf.ToInt64()
-		if uint64(val) <= maxUintptr {
+		if val >= 0 && uint64(val) <= maxUintptr {
 			return uintptr(val), err
 		}
 		return uintptr(0), ErrConversionSizeOverflow
 	case float32:
 		val, err := maybeSelf.ToFloat32()
-		return uintptr(math.Round(float64(val))), err
+		// float64(maxUintptr) rounds up to the first value that does not fit
+		if v := float64(val); v >= 0 && v < float64(maxUintptr) {
+			return uintptr(math.Round(v)), err
+		}
+		return uintptr(0), ErrConversionSizeOverflow
 	case float64:
 		val, err := maybeSelf.ToFloat64()
-		return uintptr(math.Round(val)), err
+		if val >= 0 && val < float64(maxUintptr) {
+			return uintptr(math.Round(val)), err
+		}
+		return uintptr(0), ErrConversionSizeOverflow
 	}
 }
 
